@@ -715,6 +715,19 @@ func (nf *nilFacts) nonNil(v ssa.Value, at ssa.Instruction, depth int) (bool, st
 		for i, e := range x.Edges {
 			pred := x.Block().Preds[i]
 			var last ssa.Instruction = pred.Instrs[len(pred.Instrs)-1]
+			// the branch taken from pred to the merge may itself be the test (`v := x.f; if v == nil { v = … }`)
+			if len(pred.Succs) == 2 && pred.Succs[0] != pred.Succs[1] {
+				idx := 0
+				if pred.Succs[1] == x.Block() {
+					idx = 1
+				}
+				if g, ok := core.EdgeCond(pred, idx); ok {
+					if rel, ok := core.AsRel(g); ok && rel.Op == token.NEQ &&
+						((core.StripType(rel.X) == core.StripType(e) && core.IsNilConst(rel.Y)) || (core.StripType(rel.Y) == core.StripType(e) && core.IsNilConst(rel.X))) {
+						continue
+					}
+				}
+			}
 			if ok, why := nf.nonNil(e, last, depth+1); !ok {
 				return false, "phi edge " + core.Describe(e) + ": " + why
 			}
